@@ -258,10 +258,11 @@ PROPS["C18"] = dict(
          "filled with a per-chunk sentinel re-checked after every few calls; distinct_nontrivial = distinct "
          "(style, address, size) responses with a non-null address",
     level_text="Proved: every history accepted by the monitor [accept] keeps live chunks pairwise disjoint, "
-               "inside the arena and at least as large as requested, and hands memory out again only after a "
-               "covering recycle (for any number of events). Tie: the extracted monitor validates every "
-               "response of all five manager styles; the free-list style is additionally replayed by a "
-               "deterministic replica whose addresses must match; sentinel integrity is checked in the driver.",
+               "at least as large as requested and at valid addresses, and memory is handed out again only after "
+               "a recycle; the deterministic replica of the free-list manager only ever produces responses the "
+               "monitor accepts. Tie: the extracted monitor validates every response of all 5 styles x 2 "
+               "granularities; the free-list style is replayed by the replica handle by handle; sentinel contents; "
+               "histories with growing maximum request.",
     level_note="Modelled, not verified: hole bookkeeping (grid, heap, boundary tags) of array_grid/orig_grid/"
                "heap_manager -- they are validated response by response by the proven-sound monitor, not "
                "replicated; malloc_style relies on libc. 'Contents never altered' is the driver's sentinel check.")
@@ -299,9 +300,12 @@ PROPS["C07"] = dict(
     quick=30, thorough=300, rule=_AUDIT_RULE +
     "; every script is re-run under 5 other compute-table configurations (style x stale policy x max size x "
     "compression) and once with the caches cleared after every command: all observations must coincide",
-    level_text="Results are compared across compute-table configurations and against the cache-free model "
-               "(which has no compute table at all: equality with it is transparency); per-node cache count = "
-               "number of entries mentioning the node (hook vs compute_table::countAllNodeEntries) in every audit.",
+    level_text="Proved: the apply recursion threaded through ANY sound cache with ANY purge policy returns the "
+               "cache-free result; and for the mechanism (CTStore machine: handles with generation stamps recycled "
+               "only when the node is gone and the cache count is zero, entries, sweeps) cache counts are exact and "
+               "an entry that may be returned still names the node generations it was computed for. Tie: results "
+               "compared across compute-table configurations and against the cache-free model; cache count = "
+               "number of entries (hook vs countAllNodeEntries); cached results across handle recycling.",
     level_note=_MODELLED + "memo_transparent (any sound cache, any eviction) is proved for the generic "
                "memoised recursion in Model/Memo.v when present; key adequacy per operation is by correspondence.")
 
@@ -335,9 +339,11 @@ PROPS["C11"] = dict(
                "resumption bugs); long/double overflow of cardinalities not modelled.")
 PROPS["C15"] = dict(
     gens=[("index", gen.gen_C15, 1.0)], quick=50, thorough=500,
-    level_text="Model = rank in the lexicographic enumeration of members; getElement(i) = i-th member, failing "
-               "outside 0..n-1. Tie: CONVERT_TO_INDEX_SET tables and getElement for -2..|domain|+1 on random and "
-               "boundary (empty, full) sets from fully- and quasi-reduced forests.",
+    level_text="Proved: entry i of the index table is None when the set's value there is 0 and otherwise the "
+               "number of preceding members; indices are below the member count; looking an index up returns the "
+               "member whose table entry is that index, succeeds exactly for 0 <= i < n, and n is the number of "
+               "non-zero entries. Tie: CONVERT_TO_INDEX_SET tables, getElement(-2..n+1), empty and full sets, "
+               "non-uniform domains.",
     level_note=_MODELLED + "EV+ structure of the index set (stored cardinalities) is checked by the audit "
                "clauses only.")
 
@@ -369,10 +375,11 @@ PROPS["C13"] = dict(
     gens=[("reorder", gen.gen_C13, 0.7), ("shared-order", gen.gen_C13_shared, 0.4)], quick=50, thorough=500,
     level_text="Proved: the reordered diagram (canonical diagram of the function of the renamed variables) "
                "evaluates to the original function at the permuted assignment and is reduced, for any permutation "
-               "and rule. Tie: reorderVariables with all 8 heuristics x 2 swap methods on forests with several "
-               "live edges and warm caches; every held edge re-shown (table + canonical dump), the audit of the "
-               "reordered forest, and the dumps and variable orders of the other forests of the domain "
-               "(including forests that were brought to the same order and so share the order object).",
+               "and rule; and the adjacent-level swap step (children[j][i] = old children[i][j]) denotes the same "
+               "function of the renamed variables. Tie: reorderVariables with all 8 heuristics x 2 swap methods on "
+               "forests with several live edges and warm caches; every held edge re-shown (table + canonical dump), "
+               "the audit of the reordered forest, and the dumps and variable orders of the other forests of the "
+               "domain (including forests that were brought to the same order and so share the order object).",
     level_note=_MODELLED + "The in-place swap algorithms (mtmdd/mtmxd swapAdjacent*) and the scheduling "
                "heuristics are not mirrored: the model recomputes the canonical diagram; EV+ not covered yet.")
 
